@@ -429,10 +429,12 @@ func Run(o *corr.Out) {
 	}
 	if want("fault") {
 		famFault(o, 6*mul)
+		famFaultStalledWrite(o)
 	}
 	if want("close") {
 		famClose(o, 6*mul)
 		famServe(o)
+		famServeHostile(o)
 		famServeModel(o, 30*mul)
 	}
 }
@@ -608,6 +610,8 @@ func famProbe(o *corr.Out, n int) {
 	famWaitingInvoke(o)
 	famCancelBeforeInvoke(o)
 	famPublishAfterRelease(o)
+	famQueuedUnary(o)
+	famHandlerFlush(o)
 	famLate(o, n/4+2)
 	type cs struct {
 		sends int
@@ -677,6 +681,7 @@ func famCancel(o *corr.Out, n int) {
 			subsets = append(subsets, ks)
 		}
 	}
+	famServerCancel(o)
 	famWaitingInvoke(o)
 	famCancelBeforeInvoke(o)
 	famPublishAfterRelease(o)
@@ -862,6 +867,157 @@ func famCancelBeforeInvoke(o *corr.Out) {
 		}
 		probe(o, sc, "C06:probe-completes", false)
 		finish(o, sc)
+	}
+}
+
+// famServerCancel: the server's context is cancelled while the only thing in flight on the server is
+// the end of an RPC stalled in the transport (the error or the half-close the server sends after the
+// handler returned, or a response) because the client is not draining.  ServeOne must return.
+func famServerCancel(o *corr.Out) {
+	for _, soft := range []bool{false, true} {
+		for _, prog := range []string{"e3", "x", "r1.e4", "s1:70000.x", "r1.s2:9.x"} {
+			sc := &scenario{cfg: Config{Soft: soft}, class: "server-cancel-stalled"}
+			sc.do("flow!0")
+			sc.do("inv!u1!1!" + prog + "!1!1")
+			// the request reaches the server; whatever the server writes stays parked
+			for i := 0; i < 20; i++ {
+				a, b := sc.w.A.Status(), sc.w.B.Status()
+				if a.WriteParked {
+					sc.do("ack!A")
+				} else if b.Inbound > 0 {
+					sc.do("del!B!-1")
+				} else {
+					break
+				}
+			}
+			ob := sc.do("scancel")
+			if contains(lastPending(ob), "serve") {
+				o.Oracle("C04:cancel-unblocks", sc.request(), fmt.Sprintf("soft=%v ServeOne did not return after its context was cancelled (server write stalled): %s | blocked: %s",
+					soft, ob, strings.Join(sc.w.LastObs().ServerCensus, " | ")))
+			} else {
+				o.OracleOK("C04:cancel-unblocks")
+			}
+			finish(o, sc)
+		}
+	}
+}
+
+// famFaultStalledWrite: the read side of the client's transport fails (or the connection is closed
+// locally) while a large request is parked inside a transport write, and the transport lets that write
+// go on for a while after Close (lazy close); then the write fails.  Everything must unwind.
+func famFaultStalledWrite(o *corr.Out) {
+	for _, how := range []string{"failr!A", "cclose!c0"} {
+		for _, call := range []string{"inv!u1!1!r1.s1:1.x!70000!1", "new+snd", "new+fls"} {
+			sc := &scenario{cfg: Config{Manual: call == "new+fls"}, class: "fault-stalled-write"}
+			sc.do("lazy!1")
+			sc.do("flow!0")
+			switch call {
+			case "new+snd":
+				sc.do("new!n1!1!rA.x!1")
+				pumpAll(sc)
+				sc.do("snd!s1.0!1!0!70000")
+			case "new+fls":
+				sc.do("new!n1!1!rA.x!1")
+				pumpAll(sc)
+				sc.do("snd!s1.0!1!0!9")
+				sc.do("fls!f1!1")
+			default:
+				sc.do(call)
+			}
+			sc.do(how)
+			if how == "failr!A" {
+				// Close called while the manager is terminated but an operation is still inside the
+				// transport: when Close returns, nothing of the manager may be left running
+				ob := sc.do("cclose!cc")
+				if cc := sc.w.LastObs().ClientCensus; !contains(lastPending(ob), "cc") && len(cc) > 0 {
+					o.Oracle("C12:close-waits-for-goroutines", sc.request(), "Close returned while: "+strings.Join(cc, " | "))
+				} else {
+					o.OracleOK("C12:close-waits-for-goroutines")
+				}
+			}
+			sc.do("failw!A") // now the parked write returns its error
+			sc.do("failr!A")
+			ob := sc.do("cclose!cc2")
+			pend := lastPending(ob)
+			var stuck []string
+			for _, p := range pend {
+				if p != "serve" && !strings.HasPrefix(p, "H") {
+					stuck = append(stuck, p)
+				}
+			}
+			if len(stuck) > 0 {
+				o.Oracle("C05:fault-contained", sc.request(), fmt.Sprintf("still pending at quiescence: %v; blocked: %s", stuck, strings.Join(sc.w.LastObs().ClientCensus, " | ")))
+			} else if cc := sc.w.LastObs().ClientCensus; len(cc) > 0 {
+				o.Oracle("C12:no-goroutine-left", sc.request(), "after Close returned: "+strings.Join(cc, " | "))
+			} else {
+				o.OracleOK("C05:fault-contained")
+			}
+			finish(o, sc)
+		}
+	}
+}
+
+// famHandlerFlush: ManualFlush; the handler's explicit flush is parked in the transport when the
+// client closes (or cancels) the stream; the handler then returns (error or nil).  The connection
+// must serve the next RPC.
+func famHandlerFlush(o *corr.Out) {
+	for _, end := range []string{"clo!x1!1", "can!1"} {
+		for _, prog := range []string{"s1:9.f.e3", "s1:9.f.x", "r1.s1:9.f.e3"} {
+			sc := &scenario{cfg: Config{Manual: true}, class: "handler-flush"}
+			sc.do("flow!0") // everything the server writes stays parked until acknowledged below
+			toServer := func() {
+				for i := 0; i < 20; i++ {
+					if sc.w.A.Status().WriteParked {
+						sc.do("ack!A")
+					} else if sc.w.B.Status().Inbound > 0 {
+						sc.do("del!B!-1")
+					} else {
+						return
+					}
+				}
+			}
+			sc.do("new!n1!1!" + prog + "!1")
+			sc.do("fls!f0!1")
+			if strings.HasPrefix(prog, "r1") {
+				sc.do("snd!s1.0!1!0!1")
+				sc.do("fls!f1!1")
+			}
+			toServer() // the handler runs up to its flush, which parks in the transport
+			sc.do(end)
+			toServer() // the close / cancel reaches the server while the flush is still in flight
+			pumpAll(sc)
+			probe(o, sc, "C06:probe-completes", true)
+			finish(o, sc)
+		}
+	}
+}
+
+// famQueuedUnary: unary calls issued while an earlier RPC still occupies the connection wait their
+// turn; each must carry its own request and get its own response (they share the connection's
+// marshalling buffer, one at a time).
+func famQueuedUnary(o *corr.Out) {
+	for _, l := range []int{1, 40} {
+		for _, k := range []int{2, 3} {
+			sc := &scenario{cfg: Config{}, class: "queued-unary"}
+			sc.do("new!n1!1!rA.x!1")
+			for i := 0; i < k; i++ {
+				sc.do(fmt.Sprintf("inv!u%d!%d!r1.s1:1.x!%d!%d", i+2, i+2, l, i+2))
+			}
+			sc.do("cls!x1!1")
+			res := sc.results()
+			bad := ""
+			for i := 0; i < k; i++ {
+				if got, want := res[fmt.Sprintf("u%d", i+2)], fmt.Sprintf("ok:%d/2/0/1", i+2); got != want {
+					bad = fmt.Sprintf("u%d=%q want %q", i+2, got, want)
+				}
+			}
+			if bad != "" {
+				o.Oracle("C02:isolation", sc.request(), "queued unary calls: "+bad)
+			} else {
+				o.OracleOK("C02:isolation")
+			}
+			finish(o, sc)
+		}
 	}
 }
 
